@@ -957,6 +957,18 @@ def sample(ctx, budget=1.0, hint=None, broken=None):
         except Exception as e:
             if not _tolerated(spt, a, b, e):
                 fail('%s-%s/raises %s' % (kb, ka, type(e).__name__), 'intersect raised', info, repr(e)[:200], 'a list of pairs', rrep)
+        if res is not None and r.random() < 0.3:
+            # asked again, the same question has the same answer (nothing an earlier query found may be remembered anywhere)
+            try:
+                with ic.time_limit(2.0):
+                    res_again = a.intersect(b)
+                if sorted((float(x_), float(y_)) for x_, y_ in res_again) != sorted((float(x_), float(y_)) for x_, y_ in res):
+                    fail('%s/not repeatable' % kk, 'the same intersect call, repeated, returns a different list', info, repr(res_again), repr(res),
+                         '(lambda a, b: (a.intersect(b), a.intersect(b)))(%s, %s)' % (srca, srcb))
+            except ic.Timeout:
+                pass
+            except Exception:
+                pass
         if res is not None:
             check_pairs(spt, a, b, res, fail, info, rep=rep)
             n_pairs += len(res)
